@@ -391,7 +391,14 @@ def worker_main(jobfile, outfile):
     ns['SParser']().parse(INPUT, parseinfo=True)
     tatsu.compile(gtext('x', alert=True)).parse(INPUT, parseinfo=True)
     cache = {}
+    # vacuity guard: the hook must see an open() made from inside a sandbox-like frame
+    probe = _outcome(lambda: eval("f('/etc/hostname').close()", {'__builtins__': {}}, {'f': open}))  # noqa: S307
+    hook_ok = any(e[0] == 'open' and e[2] for e in probe.get('events', []))
     with open(outfile, 'a') as out:
+        if not hook_ok:
+            for case in cases:
+                out.write(json.dumps({'id': case['id'], 'harness_error': f'audit hook self-test failed: {probe}'}) + '\n')
+            return 0
         for case in cases:
             out.write(json.dumps({'start': case['id']}) + '\n')
             out.flush()
